@@ -2463,6 +2463,11 @@ class SMPLayer(Layer):
                 ))
                 logger.info('[smp] CSRK sent.')
 
+            # If the initiator has no key to distribute, no further message will
+            # come: the pairing is complete on our side.
+            if self.state.initiator.is_key_distribution_complete():
+                self.pairing_done()
+
 
     def on_encryption_information(self, encryption_information):
         if self.is_initiator():
